@@ -94,3 +94,65 @@ theorem L2_extent {l : List (ℝ × ℝ)} {lo hi : ℝ} (hs : Sepd l) (hle : lo 
   have hv : volume (U l) ≤ volume (Ico lo hi) := measure_mono (U_subset_Ico hb)
   rw [L1 hs, Real.volume_Ico] at hv
   exact (ENNReal.ofReal_le_ofReal_iff (sub_nonneg.mpr hle)).mp hv
+
+/-!
+L4: integral of a step function.  `rows` is a swept marker table reduced to (time of the row, whether the running value AFTER
+the row satisfies the predicate of interest: "both kinds run", "communication runs", "queue is full", ...).  The analyses add
+up `next time − time` over the rows whose flag is set (`total (segs rows)`).  For rows sorted by time these pieces are sorted
+and separated, so by L1 the sum is the Lebesgue measure of their union `U (segs rows)` — the set of instants at which the
+step function satisfies the predicate.
+-/
+
+def segs : List (ℝ × Bool) → List (ℝ × ℝ)
+  | [] => []
+  | [_] => []
+  | a :: b :: l => (if a.2 then [(a.1, b.1)] else []) ++ segs (b :: l)
+
+def SortedT : List (ℝ × Bool) → Prop
+  | [] => True
+  | [_] => True
+  | a :: b :: l => a.1 ≤ b.1 ∧ SortedT (b :: l)
+
+theorem Sepd.cons {p : ℝ × ℝ} {l : List (ℝ × ℝ)} (hp : p.1 ≤ p.2) (hl : ∀ q ∈ l, p.2 ≤ q.1) (hs : Sepd l) : Sepd (p :: l) := by
+  cases l with
+  | nil => exact hp
+  | cons q l => exact ⟨hp, hl q (by simp), hs⟩
+
+theorem segs_lower : ∀ (l : List (ℝ × Bool)) (a : ℝ × Bool), SortedT (a :: l) → ∀ p ∈ segs (a :: l), a.1 ≤ p.1 := by
+  intro l
+  induction l with
+  | nil => intro a _ p hp; simp [segs] at hp
+  | cons b l ih =>
+    intro a h p hp
+    have hab : a.1 ≤ b.1 := h.1
+    have hrest : SortedT (b :: l) := h.2
+    simp only [segs, List.mem_append] at hp
+    rcases hp with hp | hp
+    · by_cases ha : a.2
+      · simp [ha] at hp
+        rw [hp]
+      · simp [ha] at hp
+    · exact le_trans hab (ih b hrest p hp)
+
+theorem segs_sepd : ∀ (l : List (ℝ × Bool)) (a : ℝ × Bool), SortedT (a :: l) → Sepd (segs (a :: l)) := by
+  intro l
+  induction l with
+  | nil => intro a _; simp [segs, Sepd]
+  | cons b l ih =>
+    intro a h
+    have hab : a.1 ≤ b.1 := h.1
+    have hrest : SortedT (b :: l) := h.2
+    have hs := ih b hrest
+    by_cases ha : a.2
+    · have : segs (a :: b :: l) = (a.1, b.1) :: segs (b :: l) := by simp [segs, ha]
+      rw [this]
+      exact Sepd.cons hab (fun q hq => segs_lower l b hrest q hq) hs
+    · have : segs (a :: b :: l) = segs (b :: l) := by simp [segs, ha]
+      rw [this]
+      exact hs
+
+/-- L4 -/
+theorem L4 (rows : List (ℝ × Bool)) (h : SortedT rows) : volume (U (segs rows)) = ENNReal.ofReal (total (segs rows)) := by
+  cases rows with
+  | nil => simp [segs, U, total]
+  | cons a l => exact L1 (segs_sepd l a h)
